@@ -492,22 +492,150 @@ def check_field(ctx, case, pts, what, tag):
     return ok
 
 
+def few_bits(x):
+    """A number whose sums/differences/squares with its like are exact in binary floating point
+    (dyadic, at most ~20 significant bits): 7.5, 10, 12.5, 3.25, 55, …"""
+    f = F(x)
+    d = f.denominator
+    return d & (d - 1) == 0 and d <= 1024 and abs(f.numerator) < 2 ** 20
+
+
 def rect_expect(poly, space):
-    """Expected lattice on an axis-aligned rectangle at rotation 0 (exact), or None near a floor boundary."""
+    """Acceptable lattices on an axis-aligned rectangle at rotation 0.
+
+    -> None (not a rectangle) or (lattices, note).  Along a row (x) the code's arithmetic is exact when the
+    corner coordinates and the spacing have few bits (the intersections with the vertical edges are the
+    corner abscissae themselves), so W = k*s EXACTLY is judged strictly: k + 1 columns.  Otherwise a ratio
+    within 1e-12 (relative) of an integer may legitimately fall on either side (ulp of sqrt / atan / sin:
+    the row count uses dist*sin(atan(y/x) - rotate)): both adjacent branches are accepted, each as a full
+    lattice.  0 columns means: one borehole per row, on the left edge.  0 rows: ZeroDivisionError."""
     xs, ys = sorted({F(p[0]) for p in poly}), sorted({F(p[1]) for p in poly})
     if len(xs) != 2 or len(ys) != 2 or len(poly) != 4:
         return None
     w, h, s = xs[1] - xs[0], ys[1] - ys[0], F(space)
-    out = []
-    for L in (w, h):
+    exact_x = all(few_bits(v) for p in poly for v in p) and few_bits(space)
+
+    def cands(L, strict_if_integer):
         q = L / s
-        if abs(q - round(q)) <= F(1, 10 ** 9) * max(1, q):
-            return "near"
-        out.append(math.floor(q))
-    nx, ny = out
-    if nx < 1 or ny < 1:
-        return None
-    return [(float(xs[0] + i * w / nx), float(ys[0] + j * h / ny)) for j in range(ny + 1) for i in range(nx + 1)]
+        k = round(q)
+        if q == k and strict_if_integer:
+            return [int(k)], "exact-multiple"
+        if abs(q - k) <= F(1, 10 ** 12) * max(1, q):
+            return sorted({max(int(k) - 1, 0), int(k)}), "near"
+        return [math.floor(q)], "generic"
+    nxs, notex = cands(w, exact_x)
+    nys, notey = cands(h, False)
+    lats = []
+    for nx in nxs:
+        for ny in nys:
+            if ny < 1:
+                lats.append(None)          # ZeroDivisionError
+                continue
+            cols = [xs[0] + i * w / nx for i in range(nx + 1)] if nx >= 1 else [xs[0]]
+            lats.append([(float(x), float(ys[0] + j * h / ny)) for j in range(ny + 1) for x in cols])
+    return lats, f"x:{notex},y:{notey}"
+
+
+def check_rect(ctx, c, pts, what):
+    """Rectangle-lattice predicate (rotation 0) on one returned field."""
+    exp = rect_expect(c["poly"], c["space"])
+    if exp is None:
+        return
+    lats, note = exp
+    ctx.count("rect:" + note)
+    if any(l is not None and same_points(pts, l, 1e-6) for l in lats):
+        return
+    want = [len(l) for l in lats if l is not None]
+    ctx.finding("rect-lattice" if "near" not in note else "rect-lattice-near-boundary",
+                f"{what}: rectangle {c['poly']} spacing {c['space']} ({note}): {len(pts)} boreholes, expected the "
+                f"{' or '.join(map(str, want))}-point lattice (floor(W/s)+1) x (floor(H/s)+1)",
+                {"case": c, "impl": pts, "expected": [l for l in lats if l is not None][:2]})
+
+
+def check_band(ctx, c, pts, what):
+    """Lots with two vertical edges exactly k spacings apart over a y-band (rotation 0): every row of boreholes
+    strictly inside the band consists of exactly the k + 1 points xl + i*s (x arithmetic exact: few-bit data)."""
+    b = c["band"]
+    rows = {}
+    for x, y in pts:
+        rows.setdefault(round(y, 6), []).append(x)
+    n_checked = 0
+    for y, xs in sorted(rows.items()):
+        if b["ya"] + 1e-6 < y < b["yb"] - 1e-6:
+            n_checked += 1
+            want = [b["xl"] + i * (b["xr"] - b["xl"]) / b["k"] for i in range(b["k"] + 1)]
+            if len(xs) != len(want) or any(abs(u - v) > 1e-6 for u, v in zip(sorted(xs), want)):
+                ctx.finding("row-exact-width", f"{what}: outline {c['poly']} spacing {c['space']}: the row at y = {y} spans exactly "
+                            f"{b['k']} spacings between the vertical edges x = {b['xl']} and x = {b['xr']} but holds boreholes at x = {sorted(xs)}, "
+                            f"expected {want}", {"case": c, "row_y": y, "xs": sorted(xs)})
+                return
+    ctx.count("band:rows-checked", n_checked)
+    if n_checked == 0:
+        ctx.finding("row-exact-width", f"{what}: outline {c['poly']} spacing {c['space']}: no row of boreholes inside the band "
+                    f"{b['ya']} < y < {b['yb']}", {"case": c})
+
+
+RECT_ORDERS = [(k, rev) for k in range(4) for rev in (False, True)]
+
+
+def rect_in_order(x0, y0, x1, y1, order):
+    base = [[x0, y0], [x1, y0], [x1, y1], [x0, y1]]
+    k, rev = order
+    p = base[k:] + base[:k]
+    return p[::-1] if rev else p
+
+
+def boundary_cases(add):
+    """Boundary-targeted lots, run in every tier (deterministic, no randomness): widths / heights that are exact
+    multiples of the spacing, one ulp and 2e-9 (relative) off, all eight vertex orders, touching / not touching
+    the axes, through gen_borehole_config and through field_optimization_fr with a window holding rotation 0 only;
+    and non-rectangular convex lots with a row exactly k spacings wide."""
+    n = [0]
+
+    def both(shape, poly, s, extra=None):
+        extra = extra or {}
+        for rot in (["1", "0"], 0.0):
+            add(dict({"kind": "gen", "stream": "boundary", "shape": shape, "poly": poly, "space": s, "rot": rot}, **extra))
+        add(dict({"kind": "opt", "stream": "boundary-opt", "shape": shape, "poly": poly, "space": s, "step": 5.0, "start": 0.0, "stop": 0.05,
+                  "rots": [["1", "0"]], "single_rot0": True}, **extra))
+
+    def order():
+        n[0] += 1
+        return RECT_ORDERS[n[0] % 8]
+    offsets = [(0.0, 0.0), (0.0, 12.0), (7.5, 0.0), (3.25, 4.5), (10.0, 10.0)]
+    for s in (7.5, 10.0, 12.5):
+        for k in (1, 2, 3):
+            for (x0, y0) in offsets:
+                # W = k*s exactly, H generic (5.5 s): strict k + 1 columns
+                both("rect", rect_in_order(x0, y0, x0 + k * s, y0 + 5.5 * s, order()), s)
+                # H = k*s exactly, W generic
+                both("rect", rect_in_order(x0, y0, x0 + 4.3 * s, y0 + k * s, order()), s)
+                # both exact
+                both("rect", rect_in_order(x0, y0, x0 + k * s, y0 + (k + 1) * s, order()), s)
+            # every vertex order for the lot exactly k spacings wide
+            for o in RECT_ORDERS:
+                both("rect", rect_in_order(2.5, 5.0, 2.5 + k * s, 5.0 + 4.75 * s, o), s)
+            # one ulp and 2e-9 (relative) below / above k*s, lot on the axis (x1 is then W itself) and off it
+            for x0 in (0.0, 8.0):
+                for w in (math.nextafter(k * s, 0.0), math.nextafter(k * s, math.inf), k * s * (1 - 2e-9), k * s * (1 + 2e-9)):
+                    both("rect", rect_in_order(x0, 0.0, x0 + w, 5.5 * s, order()), s)
+                    both("rect", rect_in_order(x0, 6.0, x0 + 4.3 * s, 6.0 + w, order()), s)
+            # convex hexagon: vertical edges exactly k spacings apart for y in [ya, yb], slanted caps
+            for (x0, y0) in ((0.0, 0.0), (4.0, 2.5)):
+                xl, xr = x0, x0 + k * s
+                hexa = [[xl, y0 + s], [x0 + k * s / 2, y0], [xr, y0 + s], [xr, y0 + 4.25 * s], [x0 + k * s / 2, y0 + 5.25 * s], [xl, y0 + 4.25 * s]]
+                r = n[0] % 6
+                n[0] += 1
+                hx = hexa[r:] + hexa[:r]
+                if n[0] % 2:
+                    hx = hx[::-1]
+                both("vband", hx, s, {"band": {"xl": xl, "xr": xr, "ya": y0 + s, "yb": y0 + 4.25 * s, "k": k}})
+            # trapezoid (left edge vertical, right edge slanted): the row at 3/4 of the height is exactly k*s wide up to rounding
+            for (x0, y0) in ((0.0, 0.0), (6.0, 3.0)):
+                w0, w1 = k * s + 24.0, k * s - 8.0
+                if w1 <= 0:
+                    w0, w1 = k * s + 6.0, k * s - 2.0
+                both("trapezoid", [[x0, y0], [x0 + w0, y0], [x0 + w1, y0 + 4.5 * s], [x0, y0 + 4.5 * s]], s)
 
 
 # =============================================================================== run
@@ -559,6 +687,9 @@ def run(ctx: core.Ctx):
     # ------------------------------------------------------------ corpus first
     for c in load_corpus():
         add(c)
+
+    # ------------------------------------------------------------ boundary-targeted lots (every tier, deterministic)
+    boundary_cases(add)
 
     # ------------------------------------------------------------ stream gen: rational rotations (exact model) + arbitrary angles
     n_gen = 260 * scale
@@ -739,6 +870,12 @@ def run(ctx: core.Ctx):
                     if not nb:
                         disagree(c["kind"], c, {"impl": r, "model": (m.get("gen") or m.get("opt"))[:200]})
             narrow = r["exc"] == "ZeroDivisionError"
+            if narrow and c.get("shape") == "rect" and c["kind"] == "gen" and (c["rot"] == ["1", "0"] or c["rot"] == 0.0) \
+                    and c.get("perim") is None and not c.get("nogo"):
+                exp = rect_expect(c["poly"], c["space"])
+                if exp is not None and None not in exp[0]:
+                    ctx.finding("rect-lattice", f"rectangle {c['poly']} spacing {c['space']} ({exp[1]}): ZeroDivisionError, expected a "
+                                f"{len(exp[0][0])}-point lattice", {"case": c})
             if not narrow and not c.get("expect_raise"):
                 ctx.finding(f"exception:{r['exc']}:{tag}", f"{c['kind']} raised {r['exc']}: {r.get('msg')} on outline {c['poly']}", {"case": c, "impl": r})
             continue
@@ -756,21 +893,22 @@ def run(ctx: core.Ctx):
                 else:
                     ctx.count("rows-simple:yes")
                 same = st == "ok" and pts_close(pts, parse_pts(payload))
+                if not same and nb and c.get("shape") == "rect" and c["rot"] == ["1", "0"]:
+                    # an exact multiple of the spacing along the row is not a rounding matter on few-bit data: judge strictly
+                    exp = rect_expect(c["poly"], c["space"])
+                    if exp is not None and "near" not in exp[1]:
+                        nb = False
                 if not same:
                     if nb:
                         ctx.count("near-boundary-other-branch")
                     else:
                         disagree("gen", c, {"impl_n": len(pts), "model": m["gen"][:300]})
-            # rectangle lattice (rotation 0)
-            if c.get("shape") == "rect" and (c["rot"] == ["1", "0"] or c["rot"] == 0.0) and c.get("perim") is None and not c.get("nogo"):
-                exp = rect_expect(c["poly"], c["space"])
-                if exp == "near":
-                    ctx.count("rect:near-boundary")
-                elif exp is not None:
-                    ctx.count("rect:lattice-checked")
-                    if not same_points(pts, exp, 1e-6):
-                        ctx.finding("rect-lattice", f"rectangle {c['poly']} spacing {c['space']}: {len(pts)} boreholes, expected the {len(exp)}-point lattice",
-                                    {"case": c, "impl": pts, "expected": exp})
+            # rectangle lattice / rows of exact width (rotation 0)
+            if (c["rot"] == ["1", "0"] or c["rot"] == 0.0) and c.get("perim") is None and not c.get("nogo"):
+                if c.get("shape") == "rect":
+                    check_rect(ctx, c, pts, "gen_borehole_config")
+                if c.get("band"):
+                    check_band(ctx, c, pts, "gen_borehole_config")
             if c["kind"] == "translate":
                 t = c["t"]
                 moved = [[p[0] + t[0], p[1] + t[1]] for p in pts]
@@ -792,6 +930,11 @@ def run(ctx: core.Ctx):
         elif c["kind"] == "opt":
             pts = r["points"]
             check_field(ctx, c, pts, "field_optimization_fr" if c.get("perim") is None else "field_optimization_wp_space_fr", tag)
+            if c.get("single_rot0"):
+                if c.get("shape") == "rect":
+                    check_rect(ctx, c, pts, "field_optimization_fr over [0 deg]")
+                if c.get("band"):
+                    check_band(ctx, c, pts, "field_optimization_fr over [0 deg]")
             own = r["own_fields"]
             counts = [len(f) for _, f in own]
             ctx.count("rotations-tried:" + ("1" if len(own) == 1 else "2-12" if len(own) <= 12 else "13-72" if len(own) <= 72 else ">72"))
